@@ -98,4 +98,117 @@ theorem insert_within_capacity (rf : Refuse) (w : World) (h : Nat) (r : Handle) 
   simp only [insertStr, g.text, hb, Bool.not_true, Bool.false_eq_true, if_false, hlen, hca, hres]
   rw [hl2]; exact hwr
 
+/-! ## C09: the mutators on an inline string (fourth session — possible since `inlLen` is `%`-free)
+
+Whatever `pop`, `truncate`, `clear`, `remove`, `retain` and a fitting `insert_str` do to an inline handle
+— succeed, reject an index, unwind from the predicate —, the heap is *identical* afterwards (no request,
+no event, no block touched) and the handle is still inline. -/
+
+/-- the outcome of an operation on an inline handle left the heap alone and the handle inline -/
+def Res.InlineNoHeap {α : Type} (hp : Heap) : Res α → Prop
+  | .ok _ hp' r' | .err hp' r' | .pidx hp' r' | .pcb hp' r' => hp' = hp ∧ ∃ raw', r' = .inl raw'
+  | .ub _ => True
+
+theorem writeThenSetLen_inl' (hp : Heap) (raw : Bytes) (off : Nat) (s : Bytes) (n : Nat) :
+    (writeThenSetLen hp (.inl raw) off s n).InlineNoHeap hp := by
+  cases h : writeThenSetLen hp (.inl raw) off s n with
+  | ok v hp' r' => exact writeThenSetLen_inl hp hp' raw off s n r' h
+  | ub u => trivial
+  | err hp' r' =>
+    unfold writeThenSetLen at h
+    split at h
+    · cases h
+    · split at h <;> cases h
+  | pidx hp' r' =>
+    unfold writeThenSetLen at h
+    split at h
+    · cases h
+    · split at h <;> cases h
+  | pcb hp' r' =>
+    unfold writeThenSetLen at h
+    split at h
+    · cases h
+    · split at h <;> cases h
+
+theorem pop_inline (st : List Bytes) (hp : Heap) (raw : Bytes) : (pop st hp (.inl raw)).InlineNoHeap hp := by
+  unfold pop
+  simp only [textOf]
+  split
+  · exact ⟨rfl, _, rfl⟩
+  · simp only [truncateUnchecked]
+    cases hs : setLen (.inl raw) ((raw.take (inlLen raw)).length - (trailing (raw.take (inlLen raw)) + 1)) with
+    | error u => trivial
+    | ok r' => exact ⟨rfl, setLen_inl_shape raw _ r' hs⟩
+
+theorem truncate_inline (st : List Bytes) (hp : Heap) (raw : Bytes) (n : Nat) : (truncate st hp (.inl raw) n).InlineNoHeap hp := by
+  unfold truncate
+  split
+  · exact ⟨rfl, _, rfl⟩
+  · simp only [textOf]
+    split
+    · exact ⟨rfl, _, rfl⟩
+    · simp only [truncateUnchecked]
+      cases hs : setLen (.inl raw) n with
+      | error u => trivial
+      | ok r' => exact ⟨rfl, setLen_inl_shape raw _ r' hs⟩
+
+theorem clear_inline (hp : Heap) (raw : Bytes) : (clear hp (.inl raw)).InlineNoHeap hp := by
+  unfold clear
+  simp only [Handle.isUnique]
+  cases hs : setLen (.inl raw) 0 with
+  | error u => trivial
+  | ok r' => exact ⟨rfl, setLen_inl_shape raw _ r' hs⟩
+
+theorem remove_inline (rf : Refuse) (st : List Bytes) (hp : Heap) (raw : Bytes) (i : Nat) :
+    (remove rf st hp (.inl raw) i).InlineNoHeap hp := by
+  unfold remove
+  simp only [textOf, ensureModifiable]
+  split
+  · exact ⟨rfl, _, rfl⟩
+  · split
+    · exact ⟨rfl, _, rfl⟩
+    · have := writeThenSetLen_inl' hp raw i ((raw.take (inlLen raw)).drop (i + charWidth ((raw.take (inlLen raw)).getD i 0)))
+        ((raw.take (inlLen raw)).length - charWidth ((raw.take (inlLen raw)).getD i 0))
+      revert this
+      cases writeThenSetLen hp (.inl raw) i _ _ <;> exact id
+
+theorem retain_inline (rf : Refuse) (st : List Bytes) (hp : Heap) (raw : Bytes) (answers : List (Option Bool)) :
+    (retain rf st hp (.inl raw) answers).InlineNoHeap hp := by
+  unfold retain
+  simp only [textOf, ensureModifiable]
+  have := writeThenSetLen_inl' hp raw 0
+    (retainScan (raw.take (inlLen raw)).length (raw.take (inlLen raw)) answers []).1
+    (retainScan (raw.take (inlLen raw)).length (raw.take (inlLen raw)) answers []).1.length
+  revert this
+  cases writeThenSetLen hp (.inl raw) 0 _ _ with
+  | ok v hp' r' => intro h; simp only []; split <;> exact h
+  | err hp' r' => exact id
+  | pidx hp' r' => exact id
+  | pcb hp' r' => exact id
+  | ub u => exact id
+
+theorem insertStr_inline (rf : Refuse) (st : List Bytes) (hp : Heap) (raw : Bytes) (i : Nat) (s : Bytes)
+    (hfit : inlLen raw + s.length ≤ 16) : (insertStr rf st hp (.inl raw) i s).InlineNoHeap hp := by
+  unfold insertStr
+  simp only [textOf]
+  split
+  · exact ⟨rfl, _, rfl⟩
+  · have hca : checkedAdd (Handle.inl raw).len s.length = some (inlLen raw + s.length) := by
+      simp only [Handle.len]; unfold checkedAdd USIZE; rw [if_pos (by omega)]
+    simp only [hca, reserve_inl_small rf st hp raw s.length hfit, textOf]
+    exact writeThenSetLen_inl' hp raw i _ _
+
+/-- the same at the level of public calls: a mutator whose target is inline (and, for the growing ones,
+whose result fits in 16 bytes) leaves `World.heap` identical and the target inline, for every outcome
+that is not a model alarm -/
+theorem finish_inline {α : Type} (w : World) (h : Nat) (plain : Bool) (val : α → Val) (res : Res α)
+    (hi : res.InlineNoHeap w.heap) (hu : ∀ u, res ≠ .ub u) :
+    (finish w h plain val res).1.heap = w.heap ∧ ∃ raw', (finish w h plain val res).1.get h = some (.inl raw') := by
+  cases res with
+  | ub u => exact absurd rfl (hu u)
+  | ok v hp r => obtain ⟨e, raw', e'⟩ := hi; subst e; subst e'; exact ⟨rfl, raw', World.get_put_self _ _ _ _⟩
+  | err hp r => obtain ⟨e, raw', e'⟩ := hi; subst e; subst e'; exact ⟨rfl, raw', World.get_put_self _ _ _ _⟩
+  | pidx hp r => obtain ⟨e, raw', e'⟩ := hi; subst e; subst e'; exact ⟨rfl, raw', World.get_put_self _ _ _ _⟩
+  | pcb hp r => obtain ⟨e, raw', e'⟩ := hi; subst e; subst e'; exact ⟨rfl, raw', World.get_put_self _ _ _ _⟩
+
 end LS
